@@ -108,6 +108,18 @@ def register(claim):
           "dispatch through base-class wrappers on derived objects, repeated calls, data-member accessors.",
           "Partial: 'wrapper = direct call' is decided by execution (no C++ semantics in Lean); operators, casts, namespaces and -true-names/-promiscuous are not in the generated libraries yet.",
           "Lean 4 proof (converter table, arity expansion) + correspondence on generated code + differential execution (exploration)", "DESIGN.md §5 C01")
+    claim("C02",
+          "Lean 4 theorems over a model of the generated overload dispatch (switch on the argument count, then the first remap in emission order whose "
+          "parameter extraction accepts the Python values; instances are accepted for their class or a base, const wrappers only by const parameters): a "
+          "call reaches a C++ function only within its arity range and with every argument accepted (c02_arity_gate); if no overload accepts, nothing runs "
+          "(TypeError, c02_no_viable_typeerror); when exactly one overload accepts — sets whose members differ in some parameter category or in arity — that "
+          "one runs, in every emission order (c02_dispatch_unique, c02_dispatch_order_independent); with several acceptable overloads the best one runs if "
+          "the emission order never puts a better match after a worse one (c02_first_viable_is_best). The model is tied to real modules: which overload ran "
+          "for every argument-category vector. Behaviour is decided per run: generated class libraries are built into extension modules and exercised by "
+          "generated Python programs with independently computed expectations (names, defaults, keywords, values, TypeError/OverflowError, constness, "
+          "base-class acceptance, live-object counts), plus a reference-counting scenario with assertion failures.",
+          "Partial: the generated C and the py_panda runtime are observed, not modelled; coercion constructors, MAKE_SEQ and nested classes are not generated yet.",
+          "Lean 4 proof (overload dispatch) + differential correspondence on real modules + generated Python tests (exploration)", "DESIGN.md §5 C02")
     claim("C20",
           "Lean 4 theorems: guarded accessors return the neutral value off-range and the entry in range; every lookup answers from the current maps "
           "for every sequence of requests/lookups/queries (cache invariant by induction over operations) and is sound/absent/exact; the unique-name "
